@@ -10,8 +10,11 @@ use std::num::ParseIntError;
 //@include prelude/lit_env.rs
 //@include prelude/lit_lemmas.rs
 //@include prelude/visitor_lit_env.rs
+//@include prelude/visitor_bin_env.rs
 //@verify visitor.not
 //@verify visitor.negate
 //@verify visitor.string
 //@verify visitor.bytes
+//@verify visitor.relation
+//@verify visitor.calc
 //@include prelude/tail_std.rs
